@@ -5,6 +5,7 @@
    parser and factory models - the two places where the full statement is false of the code. *)
 From Coq Require Import List Bool NArith.
 From Coq.Strings Require Import String Byte.
+From GV Require Skel.Emit.
 From GV Require Import Base.Bytes Base.Tok Skel.Compose Parser.Pre Valid.Model Facts.ParserConsts Facts.Factory.
 Import ListNotations.
 Open Scope string_scope.
@@ -65,8 +66,33 @@ Example C04_nonvacuous :
   = Some [lit "S1X"; lit "ghost"; lit "S2X"].
 Proof. split; vm_compute; reflexivity. Qed.
 
+(* ---- unconditional for the modelled core of the grammar (Skel/Emit.v) ----------------------
+   For EVERY document of that grammar a standard client shows exactly the author's content of the
+   text and button leaves (and the spacers' generated hair spaces), each once and in document
+   order; Outlook shows the same plus the dividers' generated spaces: no author content is lost,
+   duplicated, reordered or visible to Outlook only. *)
+Theorem C04_core_grammar_texts : forall v (b : Skel.Emit.body),
+  view_texts v (Skel.Emit.emit_body b) = Some (Skel.Emit.body_texts v b).
+Proof. exact Skel.Emit.emit_body_texts. Qed.
+Theorem C04_core_grammar_nothing_outlook_only : forall s (b : Skel.Emit.body),
+  Base.Bytes.prefix (lit "S") s = true -> In s (Skel.Emit.body_texts Mso b) -> In s (Skel.Emit.body_texts Std b).
+Proof.
+  intros s b Hs. unfold Skel.Emit.body_texts. rewrite !in_flat_map. intros [bl [Hb H]]. exists bl. split; [exact Hb|].
+  assert (L : forall k, In s (Skel.Emit.leaf_texts Mso k) -> In s (Skel.Emit.leaf_texts Std k)).
+  { intros k. destruct k; cbn; auto. intros [E|[]]. subst s. vm_compute in Hs. discriminate. }
+  assert (C : forall cs, In s (Skel.Emit.cols_texts Mso cs) -> In s (Skel.Emit.cols_texts Std cs)).
+  { intros cs. unfold Skel.Emit.cols_texts, Skel.Emit.col_texts. rewrite !in_flat_map. intros [c0 [Hc H0]]. exists c0. split; [exact Hc|].
+    rewrite in_flat_map in *. destruct H0 as [k [Hk H1]]. exists k. split; [exact Hk|now apply L]. }
+  assert (S : forall sc, In s (Skel.Emit.sec_texts Mso sc) -> In s (Skel.Emit.sec_texts Std sc)).
+  { intros sc. destruct sc as [cs|gs]; cbn [Skel.Emit.sec_texts]; [apply C|]. rewrite !in_flat_map. intros [g [Hg H0]]. exists g. split; [exact Hg|now apply C]. }
+  destruct bl as [sc|sc|ss]; cbn [Skel.Emit.block_texts] in *; try (now apply S).
+  rewrite in_flat_map in *. destruct H as [sc [Hsc H0]]. exists sc. split; [exact Hsc|now apply S].
+Qed.
+
 Print Assumptions C04_texts_compose.
 Print Assumptions C04_merging_keeps_texts.
 Print Assumptions C04_child_text_in_place.
 Print Assumptions C04_chardata_stays_chardata_refuted.
 Print Assumptions C04_render_or_error_refuted.
+Print Assumptions C04_core_grammar_texts.
+Print Assumptions C04_core_grammar_nothing_outlook_only.
